@@ -158,6 +158,9 @@ UNITS += [dump_unit("C08"), instantiate_unit("C08")]
 from contracts.misc_units import expand_help_unit  # noqa: E402
 UNITS.append(expand_help_unit("C08"))
 
+from contracts.class_type import class_type_unit  # noqa: E402
+UNITS.append(class_type_unit("C08"))
+
 VERIFIED_CALLEES = ("recreate_branches",)
 LEVEL = "other"
 TECHNIQUE = "contract-based deductive verification of frame conditions (copy freshness of recreate_branches, restoration of argparse.Namespace / context variables / cwd; VCs from the real AST) + bounded deep-snapshot contract around every public operation"
